@@ -1,7 +1,11 @@
 //! C10: chunk grids. One stateless case per line.
 use crate::util::*;
+use std::cell::RefCell;
 use std::num::NonZeroU64;
+use std::sync::Arc;
 use zarrs::array::chunk_grid::{ChunkGrid, ChunkGridTraits, RectangularChunkGrid, RegularChunkGrid};
+use zarrs::array::{Array, ArrayBuilder, ChunkShape, DataType, FillValue};
+use zarrs::storage::store::MemoryStore;
 use zarrs::array_subset::ArraySubset;
 use zarrs::metadata::v3::array::chunk_grid::rectangular::RectangularChunkGridDimensionConfiguration as DimCfg;
 use zarrs::metadata::v3::MetadataV3;
@@ -47,6 +51,124 @@ fn show_subset(s: &ArraySubset) -> String {
     format!("{}+{}", nl(s.start()), nl(s.shape()))
 }
 
+fn se<T, E>(r: Result<T, E>, f: impl Fn(&T) -> String) -> String {
+    match r {
+        Ok(x) => f(&x),
+        Err(_) => "err".into(),
+    }
+}
+fn o<T>(r: Option<T>, f: impl Fn(&T) -> String) -> String {
+    match r {
+        Some(x) => f(&x),
+        None => "none".into(),
+    }
+}
+fn nzl(x: &[NonZeroU64]) -> String {
+    nl(&x.iter().map(|z| z.get()).collect::<Vec<_>>())
+}
+
+thread_local! {
+    /// the array of the previous request (requests on the same grid/shape/route are consecutive)
+    static LAST_ARRAY: RefCell<Option<(String, Option<Arc<Array<MemoryStore>>>)>> = RefCell::new(None);
+}
+/// an `Array` over the grid: `via=direct` builder with the shape, `via=meta` grid re-created from its metadata first,
+/// `via=setshape` built with an all-zero shape, then `set_shape`
+fn array_of(grid: &str, arr: &[u64], via: &str) -> Option<Arc<Array<MemoryStore>>> {
+    let key = format!("{} {} {}", grid, nl(arr), via);
+    if let Some(hit) = LAST_ARRAY.with(|c| c.borrow().as_ref().filter(|(k, _)| *k == key).map(|(_, a)| a.clone())) {
+        return hit;
+    }
+    let built = (|| {
+        let g = parse_grid(grid, via == "meta")?;
+        let shape0 = if via == "setshape" { vec![0; arr.len()] } else { arr.to_vec() };
+        let mut a = ArrayBuilder::new(shape0, DataType::UInt8, g, FillValue::from(0u8)).build(Arc::new(MemoryStore::new()), "/a").ok()?;
+        if via == "setshape" { a.set_shape(arr.to_vec()); }
+        Some(Arc::new(a))
+    })();
+    LAST_ARRAY.with(|c| *c.borrow_mut() = Some((key, built.clone())));
+    built
+}
+
+/// the verbs added by the API-coverage audit: the `_unchecked` trait methods (called with matching ranks, except
+/// `grid_shape_unchecked`, which asserts), the regular grid's accessors and `From` conversions, the `Array` methods
+fn exec_api(verb: &str, m: &std::collections::BTreeMap<String, String>, g: &ChunkGrid, arr: &[u64]) -> Option<String> {
+    let via = m.get("via").map(|s| s.as_str()).unwrap_or("direct");
+    Some(match verb {
+        "ugridshape" => format!("val {}", o(unsafe { g.grid_shape_unchecked(arr) }, |x| nl(x))),
+        "uchunk" => {
+            let c = pnl(&m["c"]);
+            unsafe {
+                format!(
+                    "val origin={} shape={} shapenz={} subset={}",
+                    o(g.chunk_origin_unchecked(&c, arr), |x| nl(x)),
+                    o(g.chunk_shape_u64_unchecked(&c, arr), |x| nl(x)),
+                    o(g.chunk_shape_unchecked(&c, arr), |x| nzl(x)),
+                    o(g.subset_unchecked(&c, arr), show_subset)
+                )
+            }
+        }
+        "uelem" => {
+            let i = pnl(&m["i"]);
+            unsafe {
+                format!(
+                    "val cidx={} eidx={}",
+                    o(g.chunk_indices_unchecked(&i, arr), |x| nl(x)),
+                    o(g.chunk_element_indices_unchecked(&i, arr), |x| nl(x))
+                )
+            }
+        }
+        "regular" => {
+            let cs = nz(&pnl(&m["grid"][1..]));
+            let r = RegularChunkGrid::new(cs.clone().into());
+            let gs = |g: ChunkGrid| se(g.grid_shape(arr), |x| o(x.clone(), |y| nl(y)));
+            let shape: ChunkShape = cs.clone().into();
+            let fromarr = match cs.len() {
+                1 => { let a: [NonZeroU64; 1] = [cs[0]]; format!("{}/{}", gs(ChunkGrid::from(a)), gs(ChunkGrid::from(&a))) }
+                2 => { let a: [NonZeroU64; 2] = [cs[0], cs[1]]; format!("{}/{}", gs(ChunkGrid::from(a)), gs(ChunkGrid::from(&a))) }
+                _ => "skip".into(),
+            };
+            format!(
+                "val cs={} u64={} toarr={} fromvec={} fromslice={} fromshape={} fromarr={} tryfrom={}",
+                nzl(r.chunk_shape()),
+                nl(&r.chunk_shape_u64()),
+                nl(&zarrs::array::chunk_shape_to_array_shape(&cs)),
+                gs(ChunkGrid::from(cs.clone())),
+                gs(ChunkGrid::from(cs.as_slice())),
+                gs(ChunkGrid::from(shape)),
+                fromarr,
+                match ChunkGrid::try_from(pnl(&m["raw"])) { Ok(g) => gs(g), Err(_) => "err".into() }
+            )
+        }
+        "agridshape" | "achunk" | "aregion" | "achunks" => {
+            let a = match array_of(&m["grid"], arr, via) { Some(a) => a, None => return Some("err-build".into()) };
+            match verb {
+                "agridshape" => format!("val {} all={} dim={} gdim={} shape={}", o(a.chunk_grid_shape(), |x| nl(x)), show_subset(&a.subset_all()), a.dimensionality(), a.chunk_grid().dimensionality(), nl(a.shape())),
+                "achunk" => {
+                    let c = pnl(&m["c"]);
+                    format!(
+                        "val origin={} shape={} usize={} repr={} subset={} bounded={}",
+                        se(a.chunk_origin(&c), |x| nl(x)),
+                        se(a.chunk_shape(&c), |x| nzl(x)),
+                        se(a.chunk_shape_usize(&c), |x| nl(x)),
+                        se(a.chunk_array_representation(&c), |x| nzl(x.shape())),
+                        se(a.chunk_subset(&c), show_subset),
+                        se(a.chunk_subset_bounded(&c), show_subset)
+                    )
+                }
+                "aregion" => {
+                    let r = ArraySubset::new_with_start_shape(pnl(&m["start"]), pnl(&m["shape"])).unwrap();
+                    format!("val {}", se(a.chunks_in_array_subset(&r), |x| o(x.clone(), show_subset)))
+                }
+                _ => {
+                    let r = ArraySubset::new_with_start_shape(pnl(&m["start"]), pnl(&m["shape"])).unwrap();
+                    format!("val subset={} bounded={}", se(a.chunks_subset(&r), show_subset), se(a.chunks_subset_bounded(&r), show_subset))
+                }
+            }
+        }
+        _ => return None,
+    })
+}
+
 pub fn exec(line: &str) -> String {
     let (v, m) = parse_line(line);
     let verb = v.get(1).map(|s| s.as_str()).unwrap_or("");
@@ -86,7 +208,7 @@ pub fn exec(line: &str) -> String {
                 let r = ArraySubset::new_with_start_shape(pnl(&m["start"]), pnl(&m["shape"])).unwrap();
                 format!("val {}", so(g.chunks_subset(&r, &arr), show_subset))
             }
-            _ => "bad-op".into(),
+            other => exec_api(other, &m, &g, &arr).unwrap_or("bad-op".into()),
         }
     })
 }
@@ -167,6 +289,71 @@ fn emit_grid_cases(out: &mut Vec<String>, rng: &mut Rng, grid: &str, arr: &[u64]
     }
 }
 
+/// all (start, shape) boxes with start in 0..=hi[k] and start+shape <= hi[k]+slack; `None` beyond `cap` boxes
+fn all_boxes(hi: &[u64], slack: u64, cap: usize) -> Option<Vec<(Vec<u64>, Vec<u64>)>> {
+    let mut out: Vec<(Vec<u64>, Vec<u64>)> = vec![(vec![], vec![])];
+    for &c in hi {
+        let mut nxt = vec![];
+        for (s, n) in &out {
+            for st in 0..=c { for len in 0..=(c + slack - st) {
+                let mut s2 = s.clone(); s2.push(st); let mut n2 = n.clone(); n2.push(len); nxt.push((s2, n2));
+            } }
+        }
+        out = nxt;
+        if out.len() > cap { return None; }
+    }
+    Some(out)
+}
+fn sample_box(rng: &mut Rng, hi: &[u64], slack: u64) -> (Vec<u64>, Vec<u64>) {
+    let st: Vec<u64> = hi.iter().map(|&c| rng.below(c + 1)).collect();
+    let n: Vec<u64> = hi.iter().zip(&st).map(|(&c, &s)| rng.below(c + slack - s + 1)).collect();
+    (st, n)
+}
+
+/// the additions of the API-coverage audit for one grid/array shape: `_unchecked` trait methods and the `Array` methods
+/// (every chunk, every box of chunks up to one past the grid, every in-bounds region when the case is small)
+fn emit_api_cases(out: &mut Vec<String>, rng: &mut Rng, grid: &str, arr: &[u64], counts: &[u64], dense: bool) {
+    let pre = format!("grid={} arr={} via=direct", grid, nl(arr));
+    out.push(format!("c10 ugridshape {}", pre));
+    let mut chunks: Vec<Vec<u64>> = vec![vec![]];
+    for &c in counts {
+        let mut nxt = vec![];
+        for p in &chunks { for e in 0..=(c + 1) { let mut q = p.clone(); q.push(e); nxt.push(q); } }
+        chunks = nxt;
+    }
+    let chunks: Vec<Vec<u64>> = if dense || chunks.len() <= 40 { chunks } else { (0..40).map(|_| rng.pick(&chunks).clone()).collect() };
+    let mut elems: Vec<Vec<u64>> = vec![vec![]];
+    for &a in arr {
+        let mut nxt = vec![];
+        for p in &elems { for e in 0..=(a + 1) { let mut q = p.clone(); q.push(e); nxt.push(q); } }
+        elems = nxt;
+    }
+    let elems: Vec<Vec<u64>> = if dense || elems.len() <= 40 { elems } else { (0..40).map(|_| rng.pick(&elems).clone()).collect() };
+    for c in &chunks { out.push(format!("c10 uchunk {} c={}", pre, nl(c))); }
+    for i in &elems { out.push(format!("c10 uelem {} i={}", pre, nl(i))); }
+    if let Some(r) = grid.strip_prefix('R') {
+        let mut raw = pnl(r);
+        if !raw.is_empty() && rng.chance(1, 4) { let k = rng.below(raw.len() as u64) as usize; raw[k] = 0; }
+        out.push(format!("c10 regular {} raw={}", pre, nl(&raw)));
+    }
+    for via in ["direct", "meta", "setshape"] {
+        if via != "direct" && !dense { continue; }
+        let pre = format!("grid={} arr={} via={}", grid, nl(arr), via);
+        out.push(format!("c10 agridshape {}", pre));
+        for c in &chunks { out.push(format!("c10 achunk {} c={}", pre, nl(c))); }
+        let boxes = match all_boxes(counts, 1, if via == "direct" { 1200 } else { 150 }) {
+            Some(b) => b,
+            None => (0..(if via == "direct" { 300 } else { 60 })).map(|_| sample_box(rng, counts, 1)).collect(),
+        };
+        for (s, n) in boxes { out.push(format!("c10 achunks {} start={} shape={}", pre, nl(&s), nl(&n))); }
+        let regs = match all_boxes(arr, 0, if dense && via == "direct" { 1200 } else { 60 }) {
+            Some(b) => b,
+            None => (0..60).map(|_| sample_box(rng, arr, 0)).collect(),
+        };
+        for (s, n) in regs { out.push(format!("c10 aregion {} start={} shape={}", pre, nl(&s), nl(&n))); }
+    }
+}
+
 pub fn generate(tier: &str, seed: u64) -> Vec<String> {
     let mut rng = Rng::new(seed);
     let thorough = tier == "thorough";
@@ -180,12 +367,18 @@ pub fn generate(tier: &str, seed: u64) -> Vec<String> {
         for a in 0..=max_a {
             let count = if d.0 { (a + d.1[0] - 1) / d.1[0] } else { d.1.len() as u64 };
             emit_grid_cases(&mut out, &mut rng, &dim_text(d), &[a], &[count], true);
-            if d.0 { emit_grid_cases(&mut out, &mut rng, &format!("R{}", d.1[0]), &[a], &[count], true); }
+            emit_api_cases(&mut out, &mut rng, &dim_text(d), &[a], &[count], true);
+            if d.0 {
+                emit_grid_cases(&mut out, &mut rng, &format!("R{}", d.1[0]), &[a], &[count], true);
+                emit_api_cases(&mut out, &mut rng, &format!("R{}", d.1[0]), &[a], &[count], true);
+            }
         }
     }
     // rank 0
     emit_grid_cases(&mut out, &mut rng, "~", &[], &[], true);
     emit_grid_cases(&mut out, &mut rng, "R-", &[], &[], true);
+    emit_api_cases(&mut out, &mut rng, "~", &[], &[], true);
+    emit_api_cases(&mut out, &mut rng, "R-", &[], &[], true);
     // 2-D / 3-D: mixed grids on compatible shapes (and a few incompatible), regular with ragged edges
     let n2 = if thorough { 1500 } else { 260 };
     for k in 0..n2 {
@@ -202,6 +395,7 @@ pub fn generate(tier: &str, seed: u64) -> Vec<String> {
             else { ds.iter().map(dim_text).collect::<Vec<_>>().join(";") };
         let dense = rank == 2 && arr.iter().product::<u64>() <= 16;
         emit_grid_cases(&mut out, &mut rng, &text, &arr, &counts, dense);
+        emit_api_cases(&mut out, &mut rng, &text, &arr, &counts, dense);
     }
     // rank mismatches
     for _ in 0..40 {
@@ -211,6 +405,17 @@ pub fn generate(tier: &str, seed: u64) -> Vec<String> {
         let i: Vec<u64> = (0..rng.range(0, 3)).map(|_| rng.range(0, 4)).collect();
         out.push(format!("c10 elem grid={} arr={} via=direct i={}", text, nl(&arr), nl(&i)));
         out.push(format!("c10 chunk grid={} arr={} via=direct c={}", text, nl(&arr), nl(&i)));
+        // the same mismatches through the `Array` methods (an array of another rank is refused at creation) and
+        // `grid_shape_unchecked`, which asserts the rank
+        out.push(format!("c10 ugridshape grid={} arr={} via=direct", text, nl(&arr)));
+        out.push(format!("c10 agridshape grid={} arr={} via=direct", text, nl(&arr)));
+        let arr2 = [rng.range(1, 5), 3];
+        let sh: Vec<u64> = i.iter().map(|_| rng.range(0, 2)).collect();
+        out.push(format!("c10 achunk grid={} arr={} via=direct c={}", text, nl(&arr2), nl(&i)));
+        out.push(format!("c10 achunks grid={} arr={} via=direct start={} shape={}", text, nl(&arr2), nl(&i), nl(&sh)));
+        out.push(format!("c10 aregion grid={} arr={} via=direct start={} shape={}", text, nl(&arr2), nl(&i), nl(&sh)));
+        out.push(format!("c10 region grid={} arr={} via=direct start={} shape={}", text, nl(&arr2), nl(&i), nl(&sh)));
+        out.push(format!("c10 chunkssubset grid={} arr={} via=direct start={} shape={}", text, nl(&arr2), nl(&i), nl(&sh)));
     }
     // large extents
     for _ in 0..(if thorough { 300 } else { 60 }) {
